@@ -58,30 +58,56 @@ def cex_path(res, tag):
     return {"init": proj(states[0]), "steps": [{"a": s["last"], "t": proj(s)} for s in states[1:]], "tag": tag}
 
 
+def par_tlc(ctx, jobs):
+    """Run several independent TLC jobs concurrently (TLC start-up dominates these small models).
+    jobs: {name: kwargs of ctx.tlc (module, cfg, ...)}.  Starts are staggered because Ctx numbers its scratch
+    directories with an unsynchronised counter."""
+    import threading, time
+    out, errs = {}, {}
+
+    def work(name, kw):
+        try:
+            out[name] = ctx.tlc(**kw)
+        except BaseException as e:          # re-raised in the caller
+            errs[name] = e
+    th = []
+    for name, kw in jobs.items():
+        t = threading.Thread(target=work, args=(name, kw))
+        t.start()
+        th.append(t)
+        time.sleep(0.15)
+    for t in th:
+        t.join()
+    for name in jobs:
+        if name in errs:
+            raise errs[name]
+    return out
+
+
 def c19_model(ctx):
     quick = ctx.quick()
     tags = ("EDGE", "META")
-    ideal = ctx.tlc("ExitPolicy", "MC.cfg", files={"MC.cfg": cfg()}, tags=tags, name="ideal")
-    if ideal.violated:
-        raise vf.Infra("ideal ExitPolicy spec violates %s (specification error)" % ideal.violated)
-    meta = meta_of(ideal)
-    # every history of route operations up to MaxOps, with the probe requests at every node
-    hops, hcfgs = (3, ("c0", "c2")) if quick else (5, ("c0", "c2"))
-    histr = ctx.tlc("ExitPolicy", "MChist.cfg", tags=tags, name="hist", files={"MChist.cfg": cfg(
-        hist=True, maxops=hops, metrics=(1,), cfgs=hcfgs, probeonly=True)})
-    if histr.violated:
-        raise vf.Infra("ideal ExitPolicy spec (history mode) violates %s" % histr.violated)
-    extra = []
+    hops = 3 if quick else 5
+    jobs = {"ideal": dict(module="ExitPolicy", cfg="MC.cfg", files={"MC.cfg": cfg()}, tags=tags, name="ideal", workers=2),
+            # every history of route operations up to MaxOps, with the probe requests at every node
+            "hist": dict(module="ExitPolicy", cfg="MChist.cfg", tags=tags, name="hist", workers=2, files={"MChist.cfg": cfg(
+                hist=True, maxops=hops, metrics=(1,), cfgs=("c0", "c2"), probeonly=True)})}
     if not quick:
-        h2 = ctx.tlc("ExitPolicy", "MChist2.cfg", tags=tags, name="hist2", files={"MChist2.cfg": cfg(
-            hist=True, maxops=4, metrics=(1,), cfgs=("c1", "c3"), probeonly=True)})
-        if h2.violated:
-            raise vf.Infra("ideal ExitPolicy spec (history mode 2) violates %s" % h2.violated)
-        extra.append(h2)
+        jobs["hist2"] = dict(module="ExitPolicy", cfg="MChist2.cfg", tags=tags, name="hist2", workers=2, files={
+            "MChist2.cfg": cfg(hist=True, maxops=4, metrics=(1,), cfgs=("c1", "c3"), probeonly=True)})
+    for d in C19_DEVS:
+        jobs["dev-" + d] = dict(module="ExitPolicy", cfg="MCdev-%s.cfg" % d, workers=1, expect_violation=True, name="dev-" + d,
+                                files={"MCdev-%s.cfg" % d: cfg(dev=[d], emit=False, invs="TypeOK", props="DialOnlyPermitted")})
+    res = par_tlc(ctx, jobs)
+    ideal, histr = res["ideal"], res["hist"]
+    for n in ("ideal", "hist", "hist2"):
+        if n in res and res[n].violated:
+            raise vf.Infra("ideal ExitPolicy spec (%s) violates %s (specification error)" % (n, res[n].violated))
+    meta = meta_of(ideal)
+    extra = [res["hist2"]] if "hist2" in res else []
     caught, cex = {}, []
     for d in C19_DEVS:
-        r = ctx.tlc("ExitPolicy", "MCdev.cfg", workers=1, expect_violation=True, name="dev-" + d, files={"MCdev.cfg": cfg(
-            dev=[d], emit=False, invs="TypeOK", props="DialOnlyPermitted")})
+        r = res["dev-" + d]
         if not r.violated:
             raise vf.Infra("deviation %s not detected (vacuous model)" % d)
         caught[d] = r.violated
@@ -115,3 +141,50 @@ def cause_of(meta, mm):
     if d.get("kind") == "dom" and not d.get("lit"):
         return "domain-pattern"
     return "unexplained"
+
+
+# ------------------------------------------------------------------------------------------------ C20
+FK_HANDLER = ["common/common_test.go.tmpl", "forward/forwardkeys_test.go"]
+FK_MESH = ["common/common_test.go.tmpl", "agent/cmesh_test.go", "agent/forwardkeys_test.go"]
+
+
+def fwd_cfg(dev=()):
+    return cfg(dev=dev, emit=False, cfgs=("c0",), invs="FwdOK", props=None, init="FwdInit", nxt="FwdNext", view=False)
+
+
+def c20_model(ctx):
+    jobs = {"vecs": dict(module="ExitPolicy", cfg="Fwd.cfg", files={"Fwd.cfg": fwd_cfg()}, workers=1,
+                         tags=("VEC", "FCFG", "FSUM"), name="fwd")}
+    for d in C20_DEVS:
+        jobs[d] = dict(module="ExitPolicy", cfg="Fwd-%s.cfg" % d, files={"Fwd-%s.cfg" % d: fwd_cfg([d])}, workers=1,
+                       tags=("FSUM",), expect_violation=True, name="fwd-" + d, dump_trace=False)
+    res = par_tlc(ctx, jobs)
+    r = res["vecs"]
+    if r.violated:
+        raise vf.Infra("forward key model: oracle and transcription disagree / vacuous universe (%s)" % r.violated)
+    vecs = [o for t, o in r.prints if t == "VEC"]
+    cfgs = {o["cfg"]: o["keys"] for t, o in r.prints if t == "FCFG"}
+    fsum = [o for t, o in r.prints if t == "FSUM"]
+    if not vecs or not cfgs or not fsum or fsum[0]["vecs"] != len(vecs):
+        raise vf.Infra("forward key model: incomplete VEC output (%d vectors)" % len(vecs))
+    caught = {}
+    for d in C20_DEVS:
+        if not res[d].violated:
+            raise vf.Infra("deviation %s not detected by FwdOK (vacuous model)" % d)
+        caught[d] = res[d].violated
+    return vecs, cfgs, caught
+
+
+def fk_near(cfgkeys, v):
+    """non-trivial vector: a hit, or a near miss of a configured key (prefix / suffix / extension / case variant)"""
+    k = v["key"]
+    if v["oracle"]["found"]:
+        return True
+    if not k:
+        return False
+    low = [x.lower() for x in k]
+    for c in cfgkeys:
+        cl = [x.lower() for x in c]
+        if low == cl or c[:len(k)] == k or k[:len(c)] == c or c[-len(k):] == k or k[-len(c):] == c:
+            return True
+    return False
